@@ -78,6 +78,12 @@ h("VerifFindMissingBatch", D, FM, "21 digests: 1 symbolic, 19 empty-blob filler,
 h("VerifFindMissingBatch2", D, FM, "21 digests with backend: 2 symbolic, 18 filler, 1 symbolic", "batch slicing at 20 with backend")
 h("VerifFilterNonNil", D, FM, "<=4 entries, any nil pattern", "filterNonNil keeps order and drops exactly the nil entries", native=True)
 
+VA = "./utils/validate"
+VF = ["zz_verif_validate.go"]
+h("VerifValidateFilesDirs", VA, VF, "<=1 output file, <=1 output directory (nil element or arbitrary), optional stdout/stderr digests; all paths and hashes arbitrary ASCII strings, sizes any int64", "validate.ActionResult accepts iff the independent well-formedness predicate holds", native=True, strings=True)
+h("VerifValidateSymlinks", VA, VF, "<=1 element in each of the three symlink lists; paths/targets arbitrary ASCII strings", "as above for symlinks", native=True, strings=True)
+h("VerifValidateNil", VA, VF, "-", "nil is rejected", native=True)
+
 # property -> (quick harnesses, additional thorough harnesses, assumptions, outside)
 CODEC = "zstd codec replaced by a contract stub: frames self-delimiting, Decode(Encode(x)) = x, anything else fails"
 HASH = "sha256 replaced by a provenance model: collision-free, digest equals the declared hash iff the hashed bytes are exactly the declared blob"
@@ -95,6 +101,7 @@ P = {
  "C05": (["VerifLRUAdd3", "VerifLRUReserve3", "VerifLRUGet", "VerifGetAC", "VerifContains"], ["VerifLRUAdd4", "VerifLRUReserve4", "VerifGetCasZstd", "VerifGetCasRaw"], [FSM], ["atime order after restart (C09)", "more live entries than the bound"]),
  "C06": (["VerifValidatedAC", "VerifValidatedACDir"], ["VerifValidatedAC2", "VerifValidatedACProxy"], [FSM, "proto.Unmarshal by identity: stored bytes decode to the registered message"], ["real protobuf decoding", "races between the check and a concurrent eviction"]),
  "C10": (["VerifFindMissing3", "VerifFindMissingProxy1", "VerifFindMissingBatch", "VerifFilterNonNil", "VerifContains"], ["VerifFindMissing4", "VerifFindMissingProxy2", "VerifFindMissingBatch2"], ["the backend is an arbitrary per-hash verdict"], ["hundreds of digests with all states symbolic", "512 real workers", "more than 2 preemptive context switches"]),
+ "C11": (["VerifValidateFilesDirs", "VerifValidateSymlinks", "VerifValidateNil"], [], ["strings are ASCII (Go byte strings and SMT code-point strings agree there)"], ["field-by-field fidelity of proto.Marshal/Unmarshal and protojson", "non-ASCII strings"]),
  "C12": (["VerifProxyGetAC", "VerifProxyGetCasRaw", "VerifProxyGetCasZstd", "VerifPutRawProxy"], ["VerifProxyGetCasZstdZ", "VerifPutCasZstdProxy", "VerifPutCasRawProxy"], [FSM, CODEC, HASH, "the backend is an arbitrary cache.Proxy stub"], ["minio/azure/gcs SDK calls", "real HTTP body semantics"]),
  "C14": (["VerifReadArbitrary2", "VerifGetCasZstd", "VerifGetSpecial"], ["VerifReadArbitrary3", "VerifGetCasZstdAsZstd", "VerifGetCasRawAsZstd", "VerifProxyGetCasZstd"], [FSM, CODEC], ["panics inside stubbed libraries", "resource exhaustion by volume"]),
  "C17": (["VerifLRUReserve3", "VerifLRURemove", "VerifLRUAdd3", "VerifPutAC", "VerifProxyGetAC"], ["VerifLRUReserve4", "VerifPutCasZstd", "VerifPutCasRaw", "VerifProxyGetCasRaw"], [FSM], ["real unlink latency"]),
